@@ -170,7 +170,8 @@ class ConverterToANMLString(walkers.DagWalker):
 
     def walk_iff(self, expression, args):
         assert len(args) == 2
-        return f"({args[0]} == {args[1]})"
+        # the ANML grammar accepts "==" only between arithmetic expressions and fluents
+        return f"(({args[0]} implies {args[1]}) and ({args[1]} implies {args[0]}))"
 
     def walk_fluent_exp(self, expression, args):
         if len(args) == 0:
